@@ -170,6 +170,11 @@ def block_catalogue(r, tier):
     add("sigops-20000-then-malformed", [coinbase(r), sigtx(20000, b"\x4c")])          # counted up to the bad push
     add("sigops-20001-then-malformed", [coinbase(r), sigtx(20001, b"\x05\x01")])
     add("sigops-malformed-hides-rest-ok", [coinbase(r), sigtx(5, b"\x4d\xff" + b"\xac" * 30000)])
+    # four-byte push lengths: the pushed bytes are data, what follows them is code
+    add("sigops-20000-pushdata4-hides-one", [coinbase(r), sigtx(19999, b"\x4e\x01\x00\x00\x00\xac"), sigtx(1)])
+    add("sigops-20001-after-pushdata4", [coinbase(r), sigtx(19999, b"\x4e\x02\x00\x00\x00\xff\x01\xac"), sigtx(1)])
+    add("sigops-20001-after-pushdata2", [coinbase(r), sigtx(19999, b"\x4d\x02\x00\xac\xac\xac"), sigtx(1)])
+    add("sigops-20000-pushdata1-hides-two", [coinbase(r), sigtx(19999, b"\x4c\x02\xac\xac"), sigtx(1)])
     cbs = coinbase(r)
     cbs["vout"][0]["script"] = b"\xac" * 20001
     add("sigops-20001-in-coinbase", [cbs, valid_tx(r)])
@@ -194,7 +199,9 @@ def block_catalogue(r, tier):
         cb0 = coinbase(r)
         cb0["wit"] = cbwit
         txs = [cb0, second or wtx, valid_tx(r)]
-        c = make_commit(txs, (cbwit[0][0] if cbwit and cbwit[0] else nonce)) if commit is None else commit
+        c = commit
+        if c is None and commit_at != "none":
+            c = make_commit(txs, (cbwit[0][0] if cbwit and cbwit[0] else nonce))
         if commit_at == "last":
             cb0["vout"].append({"value": 0, "script": c})
         elif commit_at == "first":
@@ -217,6 +224,17 @@ def block_catalogue(r, tier):
     add("witness-nonce-31-bytes", wblock([[gen.rbytes(r, 31)]]))
     add("witness-nonce-two-items", wblock([[nonce, nonce]]))
     add("no-witness-no-commitment", base)
+    # the coinbase's reserved value is the only witness data in the block
+    plain = valid_tx(r, 1, 1)
+    add("witness-only-in-coinbase-missing-commitment", wblock([[nonce]], "none", second=plain))
+    add("witness-only-in-coinbase-mismatched-commitment", wblock([[nonce]], commit=MAGIC + gen.rbytes(r, 32), second=plain))
+    cbo = coinbase(r)
+    cbo["wit"] = [[nonce]]
+    add("witness-single-tx-block-missing-commitment", [cbo])
+    try:
+        add("witness-only-in-coinbase-valid-commitment", wblock([[nonce]], second=plain))
+    except Exception:
+        pass
     # proof of work (regtest-level target so that it can be ground)
     out2 = []
     for name, h, txs, now, pw, mf in [x for x in out if x[0] in ("valid", "valid-1tx", "witness-valid-commitment", "tx2:value--1")]:
